@@ -50,12 +50,44 @@
 (*                    matches disc.cmatch), disc.tlsa / recs the answer at *)
 (*                    the original name (RFC 7672 2.2.2: canonical name    *)
 (*                    first, original name when nothing secure is there).  *)
+(*             disc.af how the address of the MX host (of the canonical    *)
+(*                    name when the MX name is a CNAME) is published: "a"  *)
+(*                    (A only), "aaaa" (an IPv6-only host: the A query is   *)
+(*                    answered with no data), "both".  Neither Prop nor    *)
+(*                    Rule reads it: which address family a host has does  *)
+(*                    not change what its TLSA RRset demands.  Rotated     *)
+(*                    over every row that reaches the real discovery       *)
+(*                    (wire, disc, CNAME, target, histories).              *)
+(*             disc.rc, disc.srv, disc.hops  (rounds that reach the real    *)
+(*                    discovery) spellings the rule is independent of,     *)
+(*                    rotated over the rows: rc = the response code a      *)
+(*                    "servfail" answer really carries (SERVFAIL, REFUSED, *)
+(*                    NOTIMP, FORMERR: every one is a failed lookup);      *)
+(*                    srv = "failover": the resolver configuration lists   *)
+(*                    two servers and the first one fails every query (the *)
+(*                    lookup outcome is the second server's answer; one    *)
+(*                    delivery object has one resolver configuration: a    *)
+(*                    history runs under its first round's srv);           *)
+(*                    hops = length of the CNAME chain behind the MX name   *)
+(*                    (2: mx -> alias -> canonical name, TLSA published at  *)
+(*                    the fully expanded name).                            *)
 (*             lookup "target": as "disc", but the round is a delivery     *)
 (*                    attempt of the real remote target (MX lookup,        *)
 (*                    attemptMX, STARTTLS to a scripted server) for an MX  *)
 (*                    host with an internationalized name in A-label form; *)
 (*                    mx_auth.dane is called by the target, the levels are *)
-(*                    whatever the target computes.                        *)
+(*                    whatever the target computes.  The connection state  *)
+(*                    CheckConn sees is then the one the target's own TLS  *)
+(*                    client produced (first handshake with Web-PKI        *)
+(*                    verification, the unauthenticated retry, the         *)
+(*                    plaintext fallback), not one made up by the harness: *)
+(*                    target rounds run over all five chains and the       *)
+(*                    decisive record situations (alone and in pairs).     *)
+(*             nt     (target rounds only) how "TLS was not negotiated"    *)
+(*                    came about: "strip" (STARTTLS not offered), "break"  *)
+(*                    (offered, the handshake fails, the target falls back *)
+(*                    to plaintext); "-" with a handshake.  Not read by    *)
+(*                    Prop / Rule.                                         *)
 (*             sys    (per history) the certificate chains are ALSO valid  *)
 (*                    under the platform's trust store (the CA is a        *)
 (*                    Web-PKI root of the process).  Neither Prop nor Rule *)
@@ -92,8 +124,13 @@ UsageSeq == <<0, 1, 2, 3, 4, 255>>
 SelSeq   == <<0, 1, 2, 255>>
 MTypeSeq == <<0, 1, 2, 3, 255>>
 MatchSeq == <<"leaf", "int", "root", "none">>
-NoDisc   == [a |-> "-", tlsa |-> "-", cname |-> "-", ctlsa |-> "-", cmatch |-> "-"]
-PlainDisc(a, t) == [a |-> a, tlsa |-> t, cname |-> "-", ctlsa |-> "-", cmatch |-> "-"]
+AfSeq    == <<"a", "aaaa", "both">>
+Af(n)    == AfSeq[(n % 3) + 1]
+NoDisc   == [a |-> "-", tlsa |-> "-", cname |-> "-", ctlsa |-> "-", cmatch |-> "-", af |-> "-"]
+PlainDiscAf(a, t, af) == [a |-> a, tlsa |-> t, cname |-> "-", ctlsa |-> "-", cmatch |-> "-", af |-> af]
+PlainDisc(a, t) == PlainDiscAf(a, t, "a")
+(* a published RRset (lookup = "wire") belongs to a host with some address family *)
+WDisc(lk, n) == IF lk = "wire" THEN [NoDisc EXCEPT !.af = Af(n)] ELSE NoDisc
 KindSeq  == <<"EE", "TA", "UN">>
 ChainSeq == <<"leaf", "leaf_int", "leaf_int_root", "expired", "wrongname">>
 
@@ -147,8 +184,18 @@ MxSeq == <<"none", "mtasts", "dnssec">>
 TlSeq == <<"none", "encrypted", "authenticated">>
 (* lv in 0..8 picks the incoming (MX level, TLS level); without a handshake *)
 (* the connection has no TLS level                                          *)
+RcSeq  == <<"servfail", "refused", "notimp", "formerr">>
+SrvSeq == <<"one", "failover">>
+RECURSIVE RecW(_, _)
+RecW(recs, i) == IF i > Len(recs) THEN 0 ELSE recs[i].u + 2 * recs[i].m + 3 * i + RecW(recs, i + 1)
+(* spellings of the DNS side (rc, srv, hops): data the rule does not read, rotated *)
+DiscX(d, lk, n) ==
+  IF lk \notin {"disc", "target", "wire"} THEN d
+  ELSE d @@ [rc |-> RcSeq[(n % 4) + 1], srv |-> SrvSeq[((n \div 4) % 2) + 1],
+             hops |-> IF d.cname = "-" THEN 0 ELSE 1 + ((n \div 2) % 2)]
 Row(ch, hs, lk, recs, disc, lv) ==
-  [chain |-> ch, hs |-> hs, lookup |-> lk, recs |-> recs, disc |-> disc,
+  [chain |-> ch, hs |-> hs, lookup |-> lk, recs |-> recs,
+   disc |-> DiscX(disc, lk, lv + RecW(recs, 1) + (IF lk = "disc" THEN 0 ELSE ChainIdx(ch))),
    mxl |-> MxSeq[(lv % 3) + 1], tll |-> IF hs THEN TlSeq[((lv \div 3) % 3) + 1] ELSE "none"]
 Wire == {"ok", "wire"}
 
@@ -157,16 +204,16 @@ H1(r, sys) == [mode |-> "seq", rounds |-> <<r>>, sys |-> sys]      \* a fresh de
 (* written as predicates on `in` so that TLC enumerates the rows one by one *)
 InMulti ==
   \/ \E ms \in MS, ch \in Chains, salt \in Salts, lk \in Wire :
-       in = H1(Row(ch, TRUE, lk, Concretise(ms, salt + 3 * ChainIdx(ch)), NoDisc,
+       in = H1(Row(ch, TRUE, lk, Concretise(ms, salt + 3 * ChainIdx(ch)), WDisc(lk, SumW(ms, 1) + salt + Len(ms)),
                    (SumW(ms, 1) + salt + ChainIdx(ch)) % 9), (SumW(ms, 1) + salt) % 2 = 0)
   \/ \E ms \in MS, salt \in Salts, lk \in Wire :
-       in = H1(Row("leaf_int", FALSE, lk, Concretise(ms, salt), NoDisc, (SumW(ms, 1) + salt) % 9), FALSE)
+       in = H1(Row("leaf_int", FALSE, lk, Concretise(ms, salt), WDisc(lk, SumW(ms, 1) + salt + 1), (SumW(ms, 1) + salt) % 9), FALSE)
 
 InSingle ==
   \/ \E i \in DOMAIN AllRaw, mt \in Matches, ch \in Chains, lk \in Wire, sys \in BOOLEAN :
-       in = H1(Row(ch, TRUE, lk, <<Rec(AllRaw[i], mt)>>, NoDisc, (i + ChainIdx(ch)) % 9), sys)
+       in = H1(Row(ch, TRUE, lk, <<Rec(AllRaw[i], mt)>>, WDisc(lk, i + ChainIdx(ch)), (i + ChainIdx(ch)) % 9), sys)
   \/ \E i \in DOMAIN AllRaw, mt \in Matches, lk \in Wire :
-       in = H1(Row("leaf_int", FALSE, lk, <<Rec(AllRaw[i], mt)>>, NoDisc, i % 9), FALSE)
+       in = H1(Row("leaf_int", FALSE, lk, <<Rec(AllRaw[i], mt)>>, WDisc(lk, i), i % 9), FALSE)
 
 InLookup ==
   \E ch \in {"leaf_int_root", "wrongname"}, h \in BOOLEAN, lk \in {"notfound", "error"}, lv \in 0..8 :
@@ -176,8 +223,11 @@ InLookup ==
 DiscA    == {"ad", "noad", "nxdomain", "servfail"}
 DiscTLSA == {"recs_ad", "recs_noad", "nodata", "nxdomain", "servfail"}
 InDisc ==
-  \E h \in BOOLEAN, mt \in {"leaf", "none"}, a \in DiscA, t \in DiscTLSA, lv \in 0..8 :
-    in = H1(Row("leaf_int", h, "disc", <<[u |-> 3, s |-> 1, m |-> 1, match |-> mt]>>, PlainDisc(a, t), lv), FALSE)
+  \/ \E h \in BOOLEAN, mt \in {"leaf", "none"}, a \in DiscA, t \in DiscTLSA, lv \in 0..8 :
+       in = H1(Row("leaf_int", h, "disc", <<[u |-> 3, s |-> 1, m |-> 1, match |-> mt]>>, PlainDisc(a, t), lv), FALSE)
+  \* the same table for an IPv6-only and a dual-stack MX host
+  \/ \E h \in BOOLEAN, mt \in {"leaf", "none"}, a \in DiscA, t \in DiscTLSA, af \in {"aaaa", "both"}, lv \in {2, 6} :
+       in = H1(Row("leaf_int", h, "disc", <<[u |-> 3, s |-> 1, m |-> 1, match |-> mt]>>, PlainDiscAf(a, t, af), lv), FALSE)
 
 EE(mt) == [u |-> 3, s |-> 1, m |-> 1, match |-> mt]
 TA(mt) == [u |-> 2, s |-> 0, m |-> 1, match |-> mt]
@@ -186,25 +236,45 @@ LevelRecs == {EE("leaf"), EE("none"), TA("int"), TA("root"), TA("none"),
               [u |-> 1, s |-> 0, m |-> 1, match |-> "leaf"], [u |-> 4, s |-> 0, m |-> 1, match |-> "leaf"]}
 InLevels ==
   \/ \E lv \in 0..8, lk \in Wire, ch \in Chains, rec \in LevelRecs, sys \in BOOLEAN :
-       in = H1(Row(ch, TRUE, lk, <<rec>>, NoDisc, lv), sys)
+       in = H1(Row(ch, TRUE, lk, <<rec>>, WDisc(lk, lv + ChainIdx(ch)), lv), sys)
   \/ \E lv \in 0..8, lk \in Wire, r1 \in LevelRecs, r2 \in LevelRecs :
-       in = H1(Row("leaf_int", TRUE, lk, <<r1, r2>>, NoDisc, lv), (lv % 2) = 1)
+       in = H1(Row("leaf_int", TRUE, lk, <<r1, r2>>, WDisc(lk, lv), lv), (lv % 2) = 1)
 
 (* the MX name is a CNAME (RFC 7672 2.2.2).  With only the initial zone signed *)
 (* the canonical name has nothing secure to offer: no-data / NXDOMAIN there.   *)
 CnameKinds == {"secure", "initial", "insecure"}
 InCname ==
   \E h \in BOOLEAN, mt \in {"leaf", "none"}, cmt \in {"leaf", "none"}, ck \in CnameKinds,
-     ct \in DiscTLSA, t \in DiscTLSA, lv \in {0, 7} :
+     ct \in DiscTLSA, t \in DiscTLSA, lv \in {0, 7}, af \in {"a", "aaaa"} :
     /\ (ck = "initial" => ct \in {"nodata", "nxdomain"})
+    /\ (af = "aaaa" => lv = 0 /\ cmt = mt)      \* the canonical name is an IPv6-only host
     /\ in = H1(Row("leaf_int", h, "disc", <<EE(mt)>>,
-                   [a |-> "ad", tlsa |-> t, cname |-> ck, ctlsa |-> ct, cmatch |-> cmt], lv), FALSE)
+                   [a |-> "ad", tlsa |-> t, cname |-> ck, ctlsa |-> ct, cmatch |-> cmt, af |-> af], lv), FALSE)
 
 (* delivery attempts of the real remote target to an MX with an IDN host name *)
+TRow(ch, hs, nt, recs, disc) == Row(ch, hs, "target", recs, disc, 0) @@ [nt |-> IF hs THEN "-" ELSE nt]
+PkixEE == [u |-> 1, s |-> 0, m |-> 1, match |-> "leaf"]
+TargetRecs == {EE("leaf"), EE("none"), TA("int"), TA("none"), PkixEE}
 InTarget ==
-  \E h \in BOOLEAN, rec \in {EE("leaf"), EE("none"), TA("int"), TA("none"), [u |-> 1, s |-> 0, m |-> 1, match |-> "leaf"]},
-     a \in {"ad", "servfail"}, t \in {"recs_ad", "nodata", "nxdomain", "servfail"} :
-    in = H1(Row("leaf_int", h, "target", <<rec>>, PlainDisc(a, t), 0), FALSE)
+  \/ \E h \in BOOLEAN, rec \in TargetRecs,
+        a \in {"ad", "servfail"}, t \in {"recs_ad", "nodata", "nxdomain", "servfail"} :
+       in = H1(TRow("leaf_int", h, "strip", <<rec>>, PlainDisc(a, t)), FALSE)
+  \* every chain the server may present, through the target's own TLS client (Web-PKI
+  \* verification fails for a private CA: unauthenticated retry), IPv6-only / dual-stack MX
+  \/ \E ch \in Chains, rec \in LevelRecs, af \in {"aaaa", "both"} :
+       in = H1(TRow(ch, TRUE, "-", <<rec>>, PlainDiscAf("ad", "recs_ad", af)), FALSE)
+  \/ \E ch \in {"leaf_int", "wrongname", "expired"}, r1 \in TargetRecs \ {EE("leaf")}, r2 \in TargetRecs \ {EE("leaf")} :
+       in = H1(TRow(ch, TRUE, "-", <<r1, r2>>, PlainDiscAf("ad", "recs_ad", Af(ChainIdx(ch)))), FALSE)
+  \* the chains are also Web-PKI valid (the first handshake succeeds for a valid leaf and the
+  \* connection comes to mx_auth.dane as "authenticated"; only what DANE adds is observed, so
+  \* the valid chains are paired with the records that cannot authenticate)
+  \/ \E ch \in {"leaf_int", "leaf_int_root"}, rec \in {EE("none"), TA("none"), PkixEE} :
+       in = H1(TRow(ch, TRUE, "-", <<rec>>, PlainDisc("ad", "recs_ad")), TRUE)
+  \/ \E ch \in {"wrongname", "expired"}, rec \in LevelRecs :
+       in = H1(TRow(ch, TRUE, "-", <<rec>>, PlainDisc("ad", "recs_ad")), TRUE)
+  \* STARTTLS offered, handshake broken: the target falls back to plaintext
+  \/ \E rec \in TargetRecs, t \in {"recs_ad", "nodata"}, af \in {"a", "aaaa"} :
+       in = H1(TRow("leaf_int", FALSE, "break", <<rec>>, PlainDiscAf("ad", t, af)), FALSE)
 
 (* histories: 2 or 3 MX candidates served by the same delivery object, each *)
 (* one of these situations (its own records, chain, DNS answers)            *)
@@ -218,11 +288,13 @@ Scen == << DRow("leaf_int", TRUE, EE("leaf"), "ad", "recs_ad", 0),            \*
            DRow("leaf_int", FALSE, EE("leaf"), "ad", "recs_ad", 1),           \* records, no TLS: refused
            DRow("leaf_int", TRUE, EE("leaf"), "noad", "recs_ad", 5),          \* insecure zone
            DRow("leaf_int", TRUE, [u |-> 1, s |-> 0, m |-> 1, match |-> "leaf"], "ad", "recs_ad", 7) >> \* unusable only
+(* the address family of each MX rotates with the history *)
+HRound(sc, n, k) == [Scen[sc[k]] EXCEPT !.disc.af = Af(sc[1] + 2 * sc[n] + k)]
 InHistory ==
   \/ \E n \in 2..3 : \E sc \in [1..n -> DOMAIN Scen] :
-       in = [mode |-> "seq", rounds |-> [k \in 1..n |-> Scen[sc[k]]], sys |-> FALSE]
+       in = [mode |-> "seq", rounds |-> [k \in 1..n |-> HRound(sc, n, k)], sys |-> FALSE]
   \/ \E sc \in [1..2 -> DOMAIN Scen] :
-       in = [mode |-> "overlap", rounds |-> [k \in 1..2 |-> Scen[sc[k]]], sys |-> FALSE]
+       in = [mode |-> "overlap", rounds |-> [k \in 1..2 |-> HRound(sc, 2, k)], sys |-> FALSE]
 
 (* what a discovery amounts to (RFC 7672 2.1.1, 2.2): a failed lookup is an  *)
 (* error, a secure denial or an insecure answer is "no records"              *)
@@ -349,6 +421,10 @@ TypeOK == /\ in.mode \in {"seq", "overlap"} /\ Len(in.rounds) \in 1..3 /\ in.sys
                  /\ Len(r.recs) <= MaxRecs
                  /\ \A x \in RecSet(r) : x.match \in Matches
                  /\ (Len(in.rounds) > 1 => r.lookup = "disc")   \* several MXs: always the real PrepareConn
+                 /\ r.disc.af \in (IF r.lookup \in {"disc", "target", "wire"} THEN Range(AfSeq) ELSE {"-"})
+                 /\ (r.lookup \in {"disc", "target", "wire"} =>
+                       r.disc.rc \in Range(RcSeq) /\ r.disc.srv \in Range(SrvSeq) /\ r.disc.hops \in 0..2)
+                 /\ (r.lookup = "target" => r.nt \in (IF r.hs THEN {"-"} ELSE {"strip", "break"}))
 
 Emit == Gen => PrintT(<<"ROW", ToJson([in |-> in, exp |-> RuleH(in),
                                        cls |-> [k \in DOMAIN in.rounds |->
